@@ -1846,7 +1846,8 @@ namespace awkward {
       slicestarts.length());
     util::handle_error(err1, classname(), identities_.get());
 
-    Index64 sliceindex = slicecontent.index();
+    // (not index(): the slice item may be a strided or reversed view)
+    Index64 sliceindex = slicecontent.ravel();
     Index64 outoffsets(slicestarts.length() + 1);
     Index64 nextcarry(carrylen);
     struct Error err2 = kernel::ListArray_getitem_jagged_apply_64<T>(
@@ -1922,6 +1923,20 @@ namespace awkward {
       slicestarts.length(),
       missing.data());
     util::handle_error(err2, classname(), nullptr);
+
+    // the positions come from the slice: they belong to this array's content
+    // only if the slice's lists are not longer than the array's
+    for (int64_t i = 0;  i < nextcarry.length();  i++) {
+      if (nextcarry.getitem_at_nowrap(i) >= content_.get()->length()) {
+        util::handle_error(
+          failure("jagged slice inner length differs from array inner length",
+                  kSliceNone,
+                  kSliceNone,
+                  FILENAME_C(__LINE__)),
+          classname(),
+          identities_.get());
+      }
+    }
 
     ContentPtr out;
     if (dynamic_cast<SliceJagged64*>(slicecontent.content().get())) {
